@@ -10,7 +10,7 @@ CLAIMS = {
    ref="DESIGN.md §2 E5, §3 C17"),
  "C03": dict(
    technique="static analysis: map-iteration-order taint with inter-procedural 'unordered result' summaries to a fixed point (go/cfg paths to sort calls), strict-weak-order decision of every comparator by finite abstraction, who-may-call rules for nondeterminism sources and post-init state",
-   text="Structural necessary conditions of C03 decided statically: every range over a Go map (59 sites) is classified; every slice filled in map order crosses a sort on every CFG path before a public API returns it or it is embedded in a result (internal collectors move the obligation to all callers); every comparator (3 Less methods, 8 sort closures) is proved a strict weak order by enumerating all weak orderings of three abstract elements per key; no ambient nondeterminism source is called; no package-level or decoder-level state is written after construction.",
+   text="Structural necessary conditions of C03 decided statically: every range over a Go map (59 sites) is classified; every slice filled in map order crosses a sort on every CFG path before a public API returns it or it is embedded in a result (internal collectors move the obligation to all callers); every comparator (3 Less methods, 8 sort closures) is proved a strict weak order by enumerating all weak orderings of three abstract elements per key; no ambient nondeterminism source is called; no package-level or decoder-level state is written after construction and no query writes memory that existed before it (ownership engine E3: history independence); comparators read their keys from the slice being sorted and order positions by byte offset.",
    note="Does not decide tie-freedom of sort keys on real data, nor the cross-type order of JSON blocks returned by hcl; trusts go/types+go/cfg, the stated hclsyntax disjoint-range assumption for first-match returns, and that third-party callees are deterministic.",
    ref="DESIGN.md §2 E2, §3 C03"),
  "C01": dict(
@@ -94,6 +94,16 @@ CLAIMS = {
    text="Structural necessary conditions of C16 decided statically: DependencyKeys.MarshalJSON sorts every slice field it marshals (labels by index, attributes by name) with comparators that are strict weak orders over the slice being sorted; every conversion to schema.SchemaKey takes the bytes of that MarshalJSON (so registration via NewSchemaKey and lookup in DependentBodySchema agree); every consumer that accepts LookupSuccessful among alternatives also accepts LookupPartiallySuccessful; completion, hover, semantic tokens, reference targets, reference origins, validation (walker) and label hover all descend into a block with the schema returned by MergeBlockBodySchemas (shared rows), and links are emitted for labels/attributes of the selecting keys under the same result kinds; the second-level lookup happens only for found first-level bodies with dependency-key attributes; the lookup path writes no shared schema memory (the temporary block schema is a Copy) and BlockSchema/BodySchema Copy methods keep every field.",
    note="Injectivity of the JSON encoding of key values (cty -> JSON) is not decided; nor that dependencyKeysFromBlock reads the right values for every expression form (covered only as far as C01/C15 rows).",
    ref="DESIGN.md §3 C16"),
+ "C19": dict(
+   technique="static analysis: obligation rows over the JSON-only branches (ToHCLSchema totality, rawObjectKey JSON branch), sibling agreement of the JSON single-interpolation test between origins and targets, independent-expectation rule, JSON remainder rule, position-arithmetic engine restricted to the JSON branches",
+   text="Structural necessary conditions of C19 decided statically (the part of JSON/native agreement that is visible in hcl-lang's own code): ToHCLSchema hands every attribute and every block type of the schema to hcl with no filter, so nothing written in JSON is silently undecodable; ast.DecodeBody takes extra attributes from the remainder of PartialContent (no item decoded twice); a JSON object key is accepted exactly when it evaluates, as a template with an empty evaluation context, to a known non-null string (no further filter); the test 'this JSON string is exactly one ${traversal}' is the same in Reference.ReferenceOrigins and Reference.ReferenceTargets and constrains both ends of the string (neither end of the expected range is taken from the expression it is compared with); hand-built positions in the JSON branches shift column and byte coherently.",
+   note="Equality of the two syntaxes' results is NOT decided: it depends on hcl's JSON parser and on runtime values. Only the listed shape conditions of hcl-lang's JSON-specific branches are; each is necessary (breaking it makes a JSON document diverge from its native twin).",
+   ref="DESIGN.md §3 C19"),
+ "C20": dict(
+   technique="static analysis: obligation rows over the signature visitor (assignments to the result and to the active parameter, parameter list construction), visitor-statelessness rule (captured variables written and read), inside-parentheses guard derivation",
+   text="Structural necessary conditions of C20 decided statically: a signature is assigned only for a FunctionCallExpr node containing the cursor whose name is a known function; a signature with parameters only after ContainsPos on RangeBetween(OpenParenRange, CloseParenRange) of that same call; the visitor callback reads no captured variable that it writes (so each matching node overwrites the result — innermost pre-order match wins — and nothing computed for one call leaks into another); the active parameter is set to the index of the argument containing or ending at the cursor, to lastArgIdx+1 exactly under the trailing-comma recovery, and clamped to paramsLen-1 exactly when it is >= paramsLen; the parameterised signature is unreachable when the index is beyond the parameters and there is no variadic one; the parameter list is one entry per fixed parameter plus the variadic one when present.",
+   note="Does not decide the arithmetic claim 'always a valid index' value-by-value (needs a path-sensitive join of the clamp; the guard structure that implies it is checked), nor what recoverLeftBytes returns for every byte sequence (CRLF, spaces without comma).",
+   ref="DESIGN.md §3 C20"),
 }
 NA = {}
 ALL = ["C%02d" % i for i in range(1, 21)]
